@@ -1636,7 +1636,9 @@ def parse_template(tpl):
             if n & 1:
                 flags = tpl[i] | (tpl[i + 1] << 8) | (tpl[i + 2] << 16) | (tpl[i + 3] << 24)
                 i += 4
+            width = None
             if n & 2:
+                width = tpl[i] | (tpl[i + 1] << 8)
                 i += 2
             if n & 4:
                 i += 2
@@ -1646,7 +1648,7 @@ def parse_template(tpl):
             if n & (16 | 32):
                 raise Unsupported("dynamic width/precision in format template")
             # FormattingOptions flag bits: alternate is bit 23 (see core::fmt::flags)
-            out.append(("arg", idx, bool(flags & (1 << 23)), flags))
+            out.append(("arg", idx, bool(flags & (1 << 23)), flags, width))
 
 
 @reg("std::fmt::Formatter::<'a>::write_fmt", "std::fmt::Write::write_fmt")
@@ -1683,6 +1685,17 @@ def _fmt_write_fmt(m, a, c):
         idx = part[1] if part[1] is not None else nxt
         nxt = idx + 1
         kind, val = fa.args[idx]
+        if kind in ("lower_hex", "upper_hex") or (len(part) > 4 and part[4] is not None and isinstance(deref(val), int)):
+            v = deref(val)
+            if not isinstance(v, int) or isinstance(v, bool):
+                raise Unsupported("hex / padded formatting of %r" % (v,))
+            txt = ("%x" % v) if kind == "lower_hex" else (("%X" % v) if kind == "upper_hex" else str(v))
+            width = part[4] if len(part) > 4 and part[4] is not None else 0
+            zero = bool(part[3] & (1 << 24))
+            if len(txt) < width:
+                txt = ("0" if zero else " ") * (width - len(txt)) + txt
+            f.out.append(txt)
+            continue
         saved = f.alternate
         f.alternate = part[2]
         try:
@@ -2356,3 +2369,49 @@ def _mem_take(m, a, c):
         old.items[:] = []
         return cp
     raise Unsupported("mem::take of %r" % (old,))
+
+
+@reg("core::str::<impl str>::get")
+def _str_get(m, a, c):
+    s_, r = _s(a[0]), deref(a[1])
+    if not (isinstance(r, Adt) and r.path.startswith("std::ops::Range")):
+        raise Unsupported("str::get with %r" % (r,))
+    b = s_.encode("utf-8")
+    lo = r.fields.get("start", 0)
+    hi = r.fields.get("end", len(b))
+    if r.path.endswith("RangeInclusive") or r.path.endswith("RangeToInclusive"):
+        hi += 1
+    if lo > hi or hi > len(b):
+        return NONE
+    for x in (lo, hi):
+        if x < len(b) and (b[x] & 0xC0) == 0x80:
+            return NONE
+    return some(b[lo:hi].decode("utf-8"))
+
+
+@reg("std::option::Option::<T>::unwrap_or_default", "std::result::Result::<T, E>::unwrap_or_default")
+def _unwrap_or_default(m, a, c):
+    v = deref(a[0])
+    if isinstance(v, Term):
+        return Term("unwrap_or_default", v)
+    if v.variant in ("Some", "Ok"):
+        return v.fields["0"]
+    t = (c.get("targs") or [""])[0]
+    c2 = {"self_ty": t, "targs": [t], "def": "std::default::Default::default", "trait": "std::default::Default",
+          "name": "default"}
+    r = m.call_callee(c2, [])
+    return r
+
+
+@reg("core::slice::<impl [T]>::contains", "std::vec::Vec::<T, A>::contains")
+def _slice_contains(m, a, c):
+    v, x = deref(a[0]), deref(a[1])
+    if isinstance(v, Term) or is_sym(x):
+        return Term("contains", v, x)
+    for it in items_of(v):
+        r = _eq(m, [it, x], {})
+        if r is True:
+            return True
+        if isinstance(r, Term):
+            return Term("contains", v, x)
+    return False
